@@ -157,4 +157,61 @@ theorem C20_ring_is_queue_from_new (n : Int) (ops : List (Op σ α)) :
     (runRing (Ring.new n : Ring α) ops).1 = (runList [] ops).1 :=
   ((rep_new n).run ops).1
 
+/-! ### non-vacuity: the hypotheses `WF r` / `Lifts f g` are satisfied by concrete non-trivial
+states (wrapped, full, about to grow), and the theorems say what one computes there -/
+
+/-- capacity 8, wrapped: the live range is slots 6,7,0,1 -/
+def exWrapped : Ring Nat := ⟨6, 2, [some 5, some 6, none, none, none, none, some 3, some 4]⟩
+
+/-- capacity 8, wrapped and full (7 elements, tail + 1 = head) -/
+def exFull : Ring Nat := ⟨5, 4, [some 4, some 5, some 6, some 7, none, some 1, some 2, some 3]⟩
+
+/-- both layouts are reached through the public operations from `NewRingBuffer(0)` -/
+theorem C20_exWrapped_eq :
+    exWrapped = (runRing (σ := Unit) (Ring.new 0)
+      [.push 0, .push 0, .push 0, .push 0, .push 1, .push 2, .discard 4, .pop, .pop,
+       .push 3, .push 4, .push 5, .push 6]).2 := by decide
+
+theorem C20_exFull_eq :
+    exFull = (runRing (σ := Unit) (Ring.new 8)
+      [.push 0, .push 0, .push 0, .push 0, .push 0, .discard 4, .pop,
+       .push 1, .push 2, .push 3, .push 4, .push 5, .push 6, .push 7]).2 := by decide
+
+theorem C20_exWrapped_wf : WF exWrapped := by
+  rw [C20_exWrapped_eq]; exact (C20_ring_is_queue (C20_new_wf 0).1 _).2.1
+
+theorem C20_exFull_wf : WF exFull := by
+  rw [C20_exFull_eq]; exact (C20_ring_is_queue (C20_new_wf 8).1 _).2.1
+
+example : exWrapped.tail < exWrapped.head ∧ exWrapped.abs = [3, 4, 5, 6] := by decide
+example : exFull.isFull = true ∧ exFull.abs = [1, 2, 3, 4, 5, 6, 7] := by decide
+
+-- push on the full wrapped ring grows 8 → 16 and re-bases the layout (C20_push, C20_grow_preserves)
+example : (exFull.push 8).size = 16 ∧ (exFull.push 8).head = 0 ∧ (exFull.push 8).tail = 8 ∧
+    (exFull.push 8).abs = [1, 2, 3, 4, 5, 6, 7, 8] := by decide
+-- pop / peek at the wrap point (C20_pop, C20_peek, C20_pop_clears_slot)
+example : exWrapped.pop.1 = some (some 3) ∧ exWrapped.peek = some (some 3) ∧
+    exWrapped.pop.2.elems[6]? = some none ∧ exWrapped.pop.2.abs = [4, 5, 6] := by decide
+-- Discard across the array end (wrapping branch), exactly to the array end, and beyond len (C20_discard)
+example : (exWrapped.discard 3).1 = 3 ∧ (exWrapped.discard 3).2.head = 1 ∧ (exWrapped.discard 3).2.abs = [6] := by decide
+example : (exWrapped.discard 2).2.head = 0 ∧ (exWrapped.discard 2).2.abs = [5, 6] := by decide
+example : (exWrapped.discard 9).1 = 4 ∧ (exWrapped.discard 9).2.abs = [] := by decide
+
+/-- a closure that records what it is shown (state: checksum), adds 10 to each element, and
+stops after the first element ≡ 1 (mod 3) -/
+def exCb (s : Nat) (a : Nat) : Nat × Nat × Bool := (s * 31 + a, a + 10, a % 3 != 1)
+
+example : Lifts (liftCb exCb) exCb := lifts_liftCb exCb
+-- the list-level specification itself: 3 continues, 4 stops (and is still updated), 5 and 6 untouched
+example : mapUntil exCb 0 [3, 4, 5, 6] = (3 * 31 + 4, [13, 14, 5, 6]) := by decide
+-- ForEach over the wrapped ring (C20_forEach_spec) …
+example : (exWrapped.forEach (liftCb exCb) 0).1 = 3 * 31 + 4 ∧
+    (exWrapped.forEach (liftCb exCb) 0).2.abs = [13, 14, 5, 6] := by decide
+-- … and ForEachReverse: 6, 5 continue, 4 stops (C20_forEachReverse_spec)
+example : (exWrapped.forEachReverse (liftCb exCb) 0).1 = (6 * 31 + 5) * 31 + 4 ∧
+    (exWrapped.forEachReverse (liftCb exCb) 0).2.abs = [3, 14, 15, 16] := by decide
+-- a whole sequence with outputs (C20_ring_is_queue)
+example : (runRing exFull [Op.pop, .push 8, .push 9, .forEachReverse exCb 0, .discard 3, .len, .isEmpty]).1 =
+    [.slot (some (some 1)), .unit, .unit, .st ((9 * 31 + 8) * 31 + 7), .num 3, .num 5, .bool false] := by decide
+
 end KcpVerif.Props
